@@ -132,6 +132,16 @@ def gen(rng, sid):
             q = bytearray(quoted)
             q[off + rng.randrange(ln)] ^= 1 << rng.randrange(8)
             extra.append(('destination-unreachable from a third party quoting a datagram with another ' + nm, unreach(bytes(q)), 0))
+    if l4 in ('UDP', 'UDPDNS'):
+        # mirrored ports with a UDP length field smaller than the header, the buffer ending at or right behind the UDP header
+        for ulen in (0, 1, 7, 8):
+            for tail in (0, 1, 2):
+                u = struct.pack('>HHHH', dport, sport, ulen, 0) + bytes(rng.randrange(256) for _ in range(tail))
+                if v6:
+                    r3 = struct.pack('>IHBB', 6 << 28, len(u), 17, 64) + da + sa + u
+                else:
+                    r3 = struct.pack('>BBHHHBBH', 0x45, 0, 20 + len(u), rng.randrange(65536), 0, 64, 17, 0) + da + sa + u
+                extra.append(('reply whose UDP length field is %d, %d bytes behind the UDP header' % (ulen, tail), r3, None))
     if l2 == 'none':
         req, reply, base = l3req, reply_l3, 0
         matched = []
